@@ -99,11 +99,77 @@ def fresh_answer(case, inq_abs, cache):
     return Guard(st, polcase.make_checker(case['k'], cache)).is_allowed(proto.build_inquiry(inq_abs))
 
 
+def _catalogues(ctx, out, rng):
+    """policies that enumerate many elements per field (a catalogue of documents, a list of users), kept in a storage
+    that builds new Policy objects for every search (SQLite / Mongo / Redis); one long-living guard is asked a few
+    hundred inquiries in shuffled rounds: every answer equals the answer over the same policies in memory given by a
+    fresh guard asked only that inquiry (anything remembered per policy object or per field would show up here)"""
+    from vakt.policy import Policy
+    from vakt.guard import Inquiry
+    for rnd in range(ctx.budget(2, 12)):
+        skind = pick(rng, ['sqlite', 'sqlite', 'mongo', 'redis-json'])
+        k = pick(rng, ['KR', 'KR', 'KX', 'KF'])
+        names = ['doc', 'img', 'vid', 'log', 'key']
+        pols, resources, subjects, actions = [], [], ['alice', 'bob', 'eve', 'mallory', 'zed'], ['get', 'read', 'write', 'list']
+        for i, nm in enumerate(rng.sample(names, rng.randint(3, 5))):
+            n_el = rng.randint(8, 14)
+            res = ['%s-%d' % (nm, j) for j in range(n_el)]
+            if k == 'KR' and rng.random() < 0.6:
+                res.insert(rng.randint(0, len(res)), '<%s-x[0-9]+>' % nm)
+            resources += res[:3]
+            subs = rng.sample(subjects, rng.randint(1, 3)) if rng.random() < 0.7 else \
+                ['user-%d' % j for j in range(rng.randint(8, 11))] + rng.sample(subjects, 2)
+            acts = rng.sample(actions, rng.randint(1, 3))
+            if k == 'KR' and rng.random() < 0.4:
+                acts = ['<%s>' % '|'.join(acts)]
+            pols.append(dict(uid='c%d' % i, effect=pick(rng, ['allow', 'allow', 'allow', 'deny']), subjects=subs, actions=acts,
+                             resources=res))
+        resources += ['zzz', 'doc-x7', 'img-x12']
+
+        def build():
+            return [Policy(p['uid'], effect=p['effect'], subjects=list(p['subjects']), actions=list(p['actions']),
+                           resources=list(p['resources'])) for p in pols]
+        try:
+            st = stores.make_base(skind)
+            for o in build():
+                st.add(o)
+        except Exception:
+            continue
+        mem = MemoryStorage()
+        for o in build():
+            mem.add(o)
+        inqs = [(s_, a_, r_) for s_ in subjects for a_ in actions for r_ in resources]
+        rng.shuffle(inqs)
+        inqs = inqs[:80]
+        guard = Guard(st, polcase.make_checker(k, (pick(rng, [None, 0, 2, 1024]),)))
+        asked = []
+        for rep in range(3):
+            order = list(inqs)
+            rng.shuffle(order)
+            for s_, a_, r_ in order:
+                q = Inquiry(subject=s_, action=a_, resource=r_)
+                a = guard.is_allowed(q)
+                want = Guard(mem, polcase.make_checker(k)).is_allowed(Inquiry(subject=s_, action=a_, resource=r_))
+                asked.append((s_, a_, r_))
+                out.evaluations += 1
+                if a is not want:
+                    f = Failure('oracle', {'checker': k, 'storage': skind, 'policies': pols, 'asked_before': len(asked) - 1,
+                                           'last_inquiries': asked[-6:]}, a, None,
+                                'a fresh guard over the same policies in memory, asked only this inquiry, says %s' % want,
+                                'Vakt.C16.history_independent')
+                    f.signature = 'history-catalogue:' + k
+                    out.failures.append(f)
+                    return
+        out.count('catalogue:%s:%s' % (skind, k))
+        out.nontriv(repr(('catalogue', pols, skind, k)))
+
+
 def run(ctx):
     out = Outcome()
     rng = ctx.rng
     n = ctx.budget(400, 15000)
     lines, meta = [], []
+    _catalogues(ctx, out, rng)
     for _ in range(n):
         case = polcase.gen_store_case(rng)
         if case['k'] == 'KR':
